@@ -167,7 +167,24 @@ def build_model(kind, spec):
         m = EmissionModel(ngauss=int(spec.get('ngauss', 4)), **kw)
     # insertion order is kept by build() (stable sort on equal `order`): with `cia_first` the collision-induced
     # absorption is already in tau[layer] when the molecular (cross-section or k-table) kernel adds its part
-    if spec.get('cia') and spec.get('cia_first'):
+    if spec.get('contribs') is not None:
+        # an explicit contribution list, in this order; it may leave the molecular absorption out:
+        # 'absorption' | 'cia' (pairs spec['cia']) | 'rayleigh' | 'flatmie' (spec['flatmie'] = dict(mix[, bottomP, topP]))
+        from taurex.contributions import RayleighContribution, FlatMieContribution
+        for name in spec['contribs']:
+            if name == 'absorption':
+                m.add_contribution(AbsorptionContribution())
+            elif name == 'cia':
+                m.add_contribution(CIAContribution(cia_pairs=list(spec['cia'])))
+            elif name == 'rayleigh':
+                m.add_contribution(RayleighContribution())
+            elif name == 'flatmie':
+                fm = spec['flatmie']
+                m.add_contribution(FlatMieContribution(flat_mix_ratio=fm['mix'], flat_bottomP=fm.get('bottomP', -1),
+                                                       flat_topP=fm.get('topP', -1)))
+            else:
+                raise ValueError(name)
+    elif spec.get('cia') and spec.get('cia_first'):
         m.add_contribution(CIAContribution(cia_pairs=list(spec['cia'])))
         m.add_contribution(AbsorptionContribution())
     else:
@@ -294,12 +311,13 @@ def observe_model(m, kind):
                    mu_quads=np.array(m._mu_quads, float), wi_quads=np.array(m._wi_quads, float))
     grid, flux, tau, _ = m.model()
     from taurex.contributions import AbsorptionContribution
-    ab = [c for c in m.contribution_list if isinstance(c, AbsorptionContribution)][0]
+    # (a model built from an explicit list `spec['contribs']` may hold no molecular absorption: `ab` is None then)
+    ab = ([c for c in m.contribution_list if isinstance(c, AbsorptionContribution)] + [None])[0]
     out.update(grid=np.array(grid, float), flux=np.array(flux, float).ravel(), tau=np.array(tau, float),
                dz=np.array(m.deltaz, float), dens=np.array(m.densityProfile, float),
                T=np.array(m.temperatureProfile, float), ap=np.array(m.altitudeProfile, float),
-               sigma_abs=np.array(ab.sigma_xsec, float),
-               weights=None if ab.weights is None else np.array(ab.weights, float),
+               sigma_abs=None if ab is None else np.array(ab.sigma_xsec, float),
+               weights=None if ab is None or ab.weights is None else np.array(ab.weights, float),
                nonmol=[kc for kc, c in zip(contribution_inputs_all(m), m.contribution_list) if c is not ab and kc],
                rp=float(m.planet.fullRadius), rs=float(m.star.radius), dist=float(m.star.distance),
                tstar=float(m.star.temperature), sed=np.array(m.star.spectralEmissionDensity, float))
